@@ -113,7 +113,7 @@ def rawRemoveGate (c : Circuit) (l : Label) : R Circuit :=
     if g.ty = INPUT && !c2.inputs.contains l then .error "Py:ValueError" else
     let c3 := if g.ty = INPUT then { c2 with inputs := c2.inputs.erase l } else c2
     let c4 := { c3 with outputs := c3.outputs.filter (fun o => !(o == l)) }
-    .ok { c4 with blocks := c4.blocks.filter (fun b => !(b.gates.contains l || b.inputs.contains l)) }
+    .ok { c4 with blocks := c4.blocks.filter (fun b => !(b.gates.contains l || b.inputs.contains l || b.outputs.contains l)) }
 
 /-- `remove_gate` -/
 def removeGate (c : Circuit) (l : Label) : R Circuit :=
